@@ -580,9 +580,14 @@ var c20Sizes = []int{0, 1, 127, 128, 16383, 16384, 65535, directchannel.Delimite
 
 func genC20c(rt *rapid.T) CaseC20c {
 	var c CaseC20c
-	n := rapid.IntRange(1, 6).Draw(rt, "nsends")
+	// (one case in five is a long series dominated by refused frames: a resource leaked per refusal runs out only then)
+	n := rapid.OneOf(rapid.IntRange(1, 6), rapid.IntRange(1, 6), rapid.IntRange(1, 6), rapid.IntRange(1, 6), rapid.IntRange(11, 16)).Draw(rt, "nsends")
 	for i := 0; i < n; i++ {
 		s := SendC20{From: rapid.IntRange(0, 1).Draw(rt, "from"), Size: rapid.SampledFrom(c20Sizes).Draw(rt, "size")}
+		if n >= 9 && rapid.IntRange(0, 5).Draw(rt, "refused") != 0 {
+			s.Size = directchannel.DelimitedReadMaxSize + 1
+			s.From = n % 2 // all towards the same receiver
+		}
 		if s.Size > 0 && s.Size <= directchannel.DelimitedReadMaxSize && rapid.IntRange(0, 4).Draw(rt, "dies") == 0 {
 			s.Trunc = rapid.OneOf(rapid.Just(1), rapid.Just(s.Size), rapid.IntRange(1, s.Size)).Draw(rt, "trunc")
 		}
@@ -628,24 +633,50 @@ func execC20c(c CaseC20c) *Outcome {
 		}
 		if s.Trunc > 0 && s.Trunc <= s.Size && s.Size <= directchannel.DelimitedReadMaxSize {
 			// the two writes of Send, the second one cut short by the sender's death
-			st, err := hosts[s.From].NewStream(ctx, hosts[1-s.From].ID(), directchannel.PROTOCOL)
-			if err != nil {
-				return fail("harness: cannot open stream: %v", err)
+			wrote := make(chan error, 1)
+			from, to, size, trunc := s.From, 1-s.From, s.Size, s.Trunc
+			go func() {
+				st, err := hosts[from].NewStream(ctx, hosts[to].ID(), directchannel.PROTOCOL)
+				if err != nil {
+					wrote <- err
+					return
+				}
+				lb := make([]byte, binary.MaxVarintLen64)
+				_, _ = st.Write(lb[:binary.PutUvarint(lb, uint64(size))])
+				if size-trunc > 0 {
+					_, _ = st.Write(data[:size-trunc])
+				}
+				_ = st.Close()
+				wrote <- nil
+			}()
+			select {
+			case err := <-wrote:
+				if err != nil {
+					return fail("harness: cannot open stream: %v", err)
+				}
+			case <-time.After(3 * time.Second):
+				// the receiver neither reads nor refuses: the valid sends that follow decide
 			}
-			lb := make([]byte, binary.MaxVarintLen64)
-			_, _ = st.Write(lb[:binary.PutUvarint(lb, uint64(s.Size))])
-			if s.Size-s.Trunc > 0 {
-				_, _ = st.Write(data[:s.Size-s.Trunc])
-			}
-			_ = st.Close()
 			died = true
 			continue
 		}
-		err := chs[s.From].Send(ctx, hosts[1-s.From].ID(), data)
 		if s.Size > directchannel.DelimitedReadMaxSize {
 			over = true // refused by the receiver (or by the sender): must not be delivered
-			_ = err
+			// (sent from a goroutine with a bound: a receiver that neither reads nor refuses must not park the
+			// harness - whether it still handles valid traffic is decided by the valid sends that follow)
+			sent := make(chan struct{})
+			from, to := s.From, 1-s.From
+			go func() { _ = chs[from].Send(ctx, hosts[to].ID(), data); close(sent) }()
+			select {
+			case <-sent:
+			case <-time.After(3 * time.Second):
+			}
 			continue
+		}
+		var err error
+		if gerr := guarded(fmt.Sprintf("a Send of %d bytes (within the limit)", s.Size), func() { err = chs[s.From].Send(ctx, hosts[1-s.From].ID(), data) }); gerr != nil {
+			cancel()
+			return fail("%v (the receiver no longer reads incoming streams)", gerr)
 		}
 		if err != nil {
 			return fail("Send of %d bytes failed: %v", s.Size, err)
@@ -661,8 +692,13 @@ func execC20c(c CaseC20c) *Outcome {
 	// a following small payload is still delivered in both directions
 	for i := 0; i < 2; i++ {
 		data := []byte(fmt.Sprintf("tail-%d", i))
-		if err := chs[i].Send(ctx, hosts[1-i].ID(), data); err != nil {
-			return fail("Send after the generated traffic failed: %v", err)
+		var serr error
+		if gerr := guarded("a small Send after the generated traffic", func() { serr = chs[i].Send(ctx, hosts[1-i].ID(), data) }); gerr != nil {
+			cancel()
+			return fail("%v (the receiver no longer reads incoming streams)", gerr)
+		}
+		if serr != nil {
+			return fail("Send after the generated traffic failed: %v", serr)
 		}
 		want[1-i] = append(want[1-i], data)
 		n := len(want[1-i])
